@@ -191,7 +191,7 @@ def run_entropy(case, res, rng):
         known = [r["bits"] for r in tap.reseeds if r["bits"] is not None]
         if known and len(known) == len(tap.reseeds):
             bits = max(known)
-            if space_bits > bits + 1:
+            if min(space_bits, 128) > bits + 1:        # a seed of 128 bits and more is as good as the source itself
                 res.violate("generator-reseeds-its-random-source-with-fewer-bits-than-the-placement-space-needs", seed_bits=bits,
                             reseeds=tap.reseeds[:4], note="after the re-seed every draw is a function of the seed value: at most 2**%d of the 2**%.1f equally likely placements can occur" % (bits, space_bits),
                             ctx=ctx)
